@@ -217,12 +217,30 @@ func (vc *VC) def(prefix, sort, term string) string {
 		return q
 	}
 	vc.emit(fmt.Sprintf("(define-fun %s () %s %s)", q, sort, term))
-	if strings.HasPrefix(term, "(mk-slice ") || strings.HasPrefix(term, "(mk-ptr ") {
+	if strings.HasPrefix(term, "(mk-slice ") || strings.HasPrefix(term, "(mk-ptr ") || isLiteralTerm(term) {
 		curDefs[q] = term
 	} else if d, ok := curDefs[term]; ok {
 		curDefs[q] = d
 	}
 	return q
+}
+
+func isLiteralTerm(t string) bool {
+	if t == "" {
+		return false
+	}
+	if strings.HasPrefix(t, "(_ bv") {
+		return true
+	}
+	if strings.HasPrefix(t, "(- ") {
+		t = strings.TrimSuffix(t[3:], ")")
+	}
+	for _, c := range t {
+		if c < '0' || c > '9' {
+			return false
+		}
+	}
+	return true
 }
 
 func (vc *VC) decl(prefix, sort string) string {
